@@ -65,6 +65,24 @@ CHECKS["C03"] = dict(
               "against dual-number jet semantics",
     design="§4 C03", engine="E1")
 
+CHECKS["C02"] = dict(
+    level="translation_validation",
+    text="expand_derivatives(derivative(F, w, v)) runs for integrands from the operator pool and for w whole / one "
+         "component / tuple in both orders / mixed whole / sub-function, directions that are arguments, coefficients "
+         "or expressions, second derivatives and user-supplied coefficient relations (also two different relations "
+         "in one expansion); the perturbation is built from the request, and z3 proves the result equals the "
+         "epsilon part of F over dual numbers for all field values.",
+    technique="SMT translation validation (z3 NRA + UF lemma instances) against dual-number Gateaux semantics",
+    design="§4 C02", engine="E1")
+CHECKS["C04"] = dict(
+    level="translation_validation",
+    text="expand_derivatives(diff(f, v)) for scalar/vector/tensor variables of terminals and of expressions "
+         "(including ones apply_derivatives rewrites), nested variables, two variables of equal shape in one "
+         "expansion, repeated diff and diff w.r.t. coefficients; z3 proves each component equals the partial "
+         "derivative w.r.t. the variable's value (unit perturbation of the label) for all field values.",
+    technique="SMT translation validation (z3 NRA) against labelled dual-number perturbations",
+    design="§4 C04", engine="E1")
+
 NOT_APPLICABLE = {
     "C11": "Signature injectivity is injectivity of string renderings (repr/str, numpy array printing, float "
            "formatting) composed with sha512: CrossHair cannot confirm it, z3/cvc5 string theories answer unknown, "
